@@ -89,6 +89,8 @@ pub struct Hist {
     pub retag_unchecked: bool,
     /// self-counting element families: live objects when the history started
     pub live_base: i64,
+    /// a user panic was injected in this history: leaks are tolerated from then on (C04), double drops are not
+    pub fault_leak: bool,
 }
 impl Hist {
     pub fn new(hist: u64) -> Self {
@@ -102,6 +104,7 @@ impl Hist {
             next_payload: 100,
             retag_unchecked: false,
             live_base: 0,
+            fault_leak: false,
         }
     }
     pub fn begin_step(&mut self, op: &'static str, descr: String) {
